@@ -188,6 +188,7 @@ func buildProperties() []Property {
 			Decides:    "the ball is instantiated and copied at throw time (throw/1 raises only Exceptions whose term is renamedCopy(ball, env) of its own arguments); the catcher is unified and Recovery called under the environment catch/3 was called with, so all later bindings are undone (with R-ENV-IMMUT); variable sharing inside the ball is kept. The closures of catch/3 and throw/1 write no captured Go variable.",
 			NotDecided: "which catch frame is selected - in particular that a catch/3 whose Goal has exited no longer intercepts (observation O1: it does on this tree; a property of the runtime promise stack).",
 			Rules: []RuleDef{
+				{"R-CATCH-SCOPE", 3, ruleCatchScope},
 				{"R-CONTROL-STATELESS", 12, ruleControlStateless},
 				{"R-BALL-COPY", 6, ruleBallCopy},
 				{"R-CATCH-ENV", 3, ruleCatchEnv},
